@@ -52,6 +52,17 @@ func back(text string, n uint64, what string) (string, string) {
 	if err := roman.Valid(text, 0); err != nil {
 		return "valid_string", fmt.Sprintf("%s: Valid(%q) = %v", what, text, err)
 	}
+	type namedS string
+	type namedB []byte
+	if g, err := roman.DefaultParser(namedS(text), 0); err != nil || uint64(g) != n {
+		return "parse_named_string", fmt.Sprintf("%s: DefaultParser[named string type](%q) = %d, %v; want %d", what, text, g, err, n)
+	}
+	if g, err := roman.DefaultParser(namedB(text), 0); err != nil || uint64(g) != n {
+		return "parse_named_bytes", fmt.Sprintf("%s: DefaultParser[named []byte type](%q) = %d, %v; want %d", what, text, g, err, n)
+	}
+	if err := roman.Valid(namedS(text), 0); err != nil {
+		return "valid_named_string", fmt.Sprintf("%s: Valid[named string type](%q) = %v", what, text, err)
+	}
 	if err := roman.Valid([]byte(text), 0); err != nil {
 		return "valid_bytes", fmt.Sprintf("%s: Valid([]byte(%q)) = %v", what, text, err)
 	}
